@@ -222,6 +222,55 @@ def _toreal(t):
     return z3.ToReal(t) if is_int_term(t) else t
 
 
+def _term_size(t, cap):
+    n = 0
+    stack = [t]
+    while stack and n < cap:
+        c = stack.pop()
+        n += 1
+        stack.extend(c.children())
+    return n
+
+
+def _syn_nonneg(t, depth=0):
+    """syntactically non-negative term (sums and products of squares, known non-negative atoms and constants >= 0)"""
+    if depth > 60 or not z3.is_app(t):
+        return False
+    if z3.is_rational_value(t) or z3.is_int_value(t) or z3.is_algebraic_value(t):
+        try:
+            return float(t.as_fraction()) >= 0
+        except Exception:
+            return False
+    if t.get_id() in E.nonneg:
+        return True
+    k = t.decl().kind()
+    ch = t.children()
+    if k == z3.Z3_OP_ADD:
+        return all(_syn_nonneg(c, depth + 1) for c in ch)
+    if k == z3.Z3_OP_MUL:
+        flat = []
+        stack = list(ch)
+        while stack:
+            c = stack.pop()
+            if z3.is_app(c) and c.decl().kind() == z3.Z3_OP_MUL:
+                stack.extend(c.children())
+            else:
+                flat.append(c)
+        cnt = {}
+        for c in flat:
+            cnt.setdefault(c.get_id(), [c, 0])[1] += 1
+        return all(n % 2 == 0 or _syn_nonneg(c, depth + 1) for c, n in cnt.values())
+    if k == z3.Z3_OP_TO_REAL:
+        return _syn_nonneg(ch[0], depth + 1)
+    if k == z3.Z3_OP_ITE:
+        return _syn_nonneg(ch[1], depth + 1) and _syn_nonneg(ch[2], depth + 1)
+    return False
+
+
+def _den_nonneg(d):
+    return all(p % 2 == 0 or _syn_nonneg(t) for t, p in d.f.values())
+
+
 class Den:
     """factored denominator: multiset {term id: (term, power)}; the value is known non-zero on the path"""
     __slots__ = ('f',)
@@ -603,12 +652,22 @@ class SV:
             ch = self.n.children()
             if len(ch) == 2 and ch[0].eq(ch[1]):
                 return abs(SV(t=ch[0]))
-        if self < 0:
+        if not (_syn_nonneg(self.n) and (self.d is None or _den_nonneg(self.d))) and self < 0:
             return SV(float('nan'))
         st = z3.simplify(self.t)
         key = ('sqrt', st.get_id())
         if key in E.memo:
             return E.memo[key][0]
+        # canonical (sum-of-monomials) key: the same polynomial written differently shares its square root atom
+        key2 = None
+        try:
+            if self.d is None and _term_size(self.n, 400) < 400:
+                key2 = ('sqrt-som', z3.simplify(self.n, som=True, sort_sums=True).get_id())
+                if key2 in E.memo:
+                    E.memo[key] = E.memo[key2]
+                    return E.memo[key2][0]
+        except z3.Z3Exception:
+            key2 = None
         v = E.fresh('sqrt')
         if self.d is None:
             E.defs += [v >= 0, v * v == _toreal(self.n)]
@@ -616,6 +675,8 @@ class SV:
             E.defs += [v >= 0, v * v * self.d.term() == _toreal(self.n)]
         r = SV(t=v)
         E.memo[key] = (r, st)
+        if key2 is not None:
+            E.memo[key2] = (r, st)
         E.nonneg.add(v.get_id())
         E.keep.append(v)
         return r
